@@ -151,6 +151,38 @@ def rule_construction(ctx):
     bs = ctx.program.cls("autobahn.wamp.protocol.BaseSession").methods["__init__"]
     ctx.ob("each session owns its own IdGenerator", any(isinstance(s, ast.Assign) and is_self_attr(s.targets[0], "_request_id_gen") and norm.text(s.value) == "IdGenerator()" for s in walk_no_defs(bs.node)),
            "generator not per session", bs.loc())
+    # "sequential from 1 within the session": the ids are session scoped, a session object can join again (leave() .. join() on the same
+    # object / transport); wherever the id of a newly established session is stored, the generator the request ids are drawn from is renewed
+    om = ctx.program.func("autobahn.wamp.protocol.ApplicationSession.onMessage")
+    gen_attr = RID.split(".")[1] if RID.startswith("self.") else None
+    ctx.require(gen_attr is not None, "request id source is not an attribute of the session")
+    joins = []
+    cls_as = ctx.program.cls("autobahn.wamp.protocol.ApplicationSession")
+
+    def renews(fnode, depth=0):
+        for x in walk_no_defs(fnode):
+            if isinstance(x, ast.Assign) and any(is_self_attr(t_, gen_attr) for t_ in x.targets) and isinstance(x.value, ast.Call) \
+                    and call_name(x.value) in ("IdGenerator", "util.IdGenerator") and not x.value.args:
+                return True
+            if depth < 2 and isinstance(x, ast.Call) and isinstance(x.func, ast.Attribute) and isinstance(x.func.value, ast.Name) and x.func.value.id == "self":
+                h = ctx.program.lookup_method(cls_as, x.func.attr) if hasattr(ctx.program, "lookup_method") else None
+                if h is None:
+                    for k_ in ctx.program.mro(cls_as):
+                        if x.func.attr in k_.methods:
+                            h = k_.methods[x.func.attr]
+                            break
+                if h is not None and renews(h.node, depth + 1):
+                    return True
+        return False
+    for f_ in [om.node] + [x for x in ast.walk(om.node) if isinstance(x, (ast.FunctionDef, ast.AsyncFunctionDef)) and x is not om.node]:
+        for st_ in walk_no_defs(f_):
+            if isinstance(st_, ast.Assign) and any(is_self_attr(t_, "_session_id") for t_ in st_.targets) and not (isinstance(st_.value, ast.Constant) and st_.value.value is None):
+                joins.append((st_, renews(f_)))
+    ctx.ob("the session id of an established session is stored in onMessage", len(joins) >= 1, "store of the WELCOME session id not found", om.loc())
+    for st_, fresh in joins:
+        ctx.ob(f"a newly established session draws its request ids from a fresh IdGenerator (`{norm.text(st_)[:50]}`)", fresh,
+               f"self.{gen_attr} is created once per session OBJECT only: after leave() and join() on the same object the new session continues with the ids of "
+               f"the old one (first request id is not 1)", om.loc(st_))
 
 
 def rule_dispatch(ctx):
